@@ -7,6 +7,7 @@ pub mod c07;
 pub mod c08;
 pub mod c09;
 pub mod c11;
+pub mod c13;
 pub mod c14;
 pub mod c15;
 pub mod c16;
@@ -28,6 +29,7 @@ pub fn run(cfg: &Cfg, rep: &mut Report) -> bool {
     "C08" => c08::run(cfg, rep),
     "C09" => c09::run(cfg, rep),
     "C11" => c11::run(cfg, rep),
+    "C13" => c13::run(cfg, rep),
     "C14" => c14::run(cfg, rep),
     "C15" => c15::run(cfg, rep),
     "C16" => c16::run(cfg, rep),
